@@ -48,12 +48,42 @@ def splitWs (s : String) : List String :=
 def isDigit (c : Char) : Bool := '0' ≤ c && c ≤ '9'
 def allDigits (s : String) : Bool := !s.isEmpty && s.toList.all isDigit
 
-/-- `int(str)` for the spellings the generator uses: optional sign, decimal digits -/
+/-- the white space `int()` skips around an ASCII literal: blank, `\t\n\v\f\r` (C `isspace`; the
+separators `\x1c`-`\x1f`, which `str.strip()` removes, are NOT skipped in an ASCII string) -/
+def isPyWs (c : Char) : Bool := isWs c
+
+def digitVal (c : Char) : Nat := c.toNat - '0'.toNat
+
+/-- after the first digit of a base-10 `int()` literal: digits, and single underscores each followed by
+a digit -/
+def intBodyRest : List Char → Bool
+  | [] => true
+  | '_' :: d :: r => isDigit d && intBodyRest r
+  | '_' :: [] => false
+  | c :: r => isDigit c && intBodyRest r
+
+/-- the digit part of `int(str)`: starts with a digit, ends with a digit, underscores only singly between
+digits (`1_000`; not `_1`, `1_`, `1__0`) -/
+def intBodyOk : List Char → Bool
+  | [] => false
+  | c :: r => isDigit c && intBodyRest (c :: r)
+
+def digitsValue (ds : List Char) : Nat := ds.foldl (fun n c => 10 * n + digitVal c) 0
+
+/-- `int(str)` in base 10 as CPython parses it, restricted to ASCII: surrounding white space is
+stripped, then an optional single sign `+` / `-` immediately followed by the digit part (no blank
+after the sign, leading zeros allowed, single underscores between digits).  Non-ASCII decimal digits
+and white space, which CPython also accepts, are outside the model (`none`). -/
 def pyInt? (s : String) : Option Int :=
-  match s.toList with
-  | '-' :: ds => if !ds.isEmpty && ds.all isDigit then (String.ofList ds).toNat?.map (fun n => -(n : Int)) else none
-  | '+' :: ds => if !ds.isEmpty && ds.all isDigit then (String.ofList ds).toNat?.map (fun n => (n : Int)) else none
-  | ds => if !ds.isEmpty && ds.all isDigit then (String.ofList ds).toNat?.map (fun n => (n : Int)) else none
+  let cs := stripChars isPyWs s.toList
+  let (neg, body) := match cs with
+    | '-' :: r => (true, r)
+    | '+' :: r => (false, r)
+    | r => (false, r)
+  if intBodyOk body then
+    let n : Int := digitsValue (body.filter (· ≠ '_'))
+    some (if neg then -n else n)
+  else none
 
 /-- `float(str)` accepted spellings (sign, digits, one optional point, optional exponent) -/
 def pyFloatOk (s : String) : Bool :=
@@ -166,6 +196,8 @@ structure Ctx where
   allInter : List (String × Attrs) := []
   /-- ITP: `current_atom_names` -/
   snapshot : List String := []
+  /-- `block.nrexcl = int(nrexcl)` -/
+  nrexcl : Option Int := none
   deriving Repr, Inhabited
 
 def Ctx.hasNode (c : Ctx) (k : String) : Bool := c.nodes.any (fun n => n.1 = k)
@@ -342,13 +374,15 @@ def blockAtomLine (line : String) (c : Ctx) : Option Ctx := do
     | some l => if startsWithBrace l then (parseAttrs l).map fun a => (toks.dropLast, a) else some (toks, ([] : Attrs))
     | none => none
   match toks1 with
-  | _ :: _atype :: resid :: _resname :: name :: cg :: extra =>
+  | _ :: atype :: resid :: resname :: name :: cg :: extra =>
     if c.hasNode name then none
-    let _ ← pyInt? resid
-    let _ ← pyInt? cg
+    let r ← pyInt? resid
+    let g ← pyInt? cg
     if !((extra.take 2).all pyFloatOk) then none
     let key := match attrs.get "atomname" with | some (.str s) => s | _ => name
-    pure (c.setNode key (attrsUpdate [("atomname", .str name)] attrs))
+    -- `dict(ChainMap(attributes, atom))`: the attribute dictionary of the line wins
+    pure (c.setNode key (attrsUpdate [("atomname", .str name), ("atype", .str atype), ("resname", .str resname),
+      ("resid", .int r), ("charge_group", .int g)] attrs))
   | _ => none
 
 /-- `_link` / `_parse_link_attribute` for section `link` -/
@@ -362,7 +396,7 @@ def linkAttrLine (molmeta : Bool) (line : String) (c : Ctx) : Option Ctx := do
 
 def nameLine2 (line : String) (c : Ctx) : Option Ctx :=
   match splitWs line with
-  | [n, x] => (pyInt? x).map fun _ => { c with name := some n }
+  | [n, x] => (pyInt? x).map fun i => { c with name := some n, nrexcl := some i }
   | _ => none
 
 def ffHandle (natomsTab : List (String × Nat)) (tab : List Entry) (kind : Kind) (p : Path) (line : String)
@@ -519,15 +553,16 @@ def itpInteraction (idxTab : List (String × List Idx)) (sect : String) (line0 :
 def itpAtomLine (line : String) (c : Ctx) : Option Ctx := do
   let toks ← tokenizeS line
   match toks with
-  | idx :: _atype :: resid :: _resname :: name :: cg :: extra =>
+  | idx :: atype :: resid :: resname :: name :: cg :: extra =>
     let i ← pyInt? idx
     if i < 1 then none
     let key := toString (i - 1)
     if c.hasNode key then none
-    let _ ← pyInt? resid
-    let _ ← pyInt? cg
+    let r ← pyInt? resid
+    let g ← pyInt? cg
     if !((extra.take 2).all pyFloatOk) then none
-    pure (c.setNode key [("atomname", .str name)])
+    pure (c.setNode key [("atomname", .str name), ("atype", .str atype), ("resname", .str resname),
+      ("resid", .int r), ("charge_group", .int g), ("index", .int i)])
   | _ => none
 
 def itpHandle (idxTab : List (String × List Idx)) (tab : List Entry) (p : Path) (line : String) (c : Ctx) : Option Ctx :=
